@@ -1,10 +1,13 @@
 (* C19 -- Saved products equal the computed ones and the saved configuration replays.
-   Statements only; proofs are in Proofs/SaveP.v (save_results) and Proofs/SavedCfgP.v
-   (configuration flow of pandora.main). *)
+   Statements only; proofs are in Proofs/SaveP.v (save_results), Proofs/SavedCfgP.v (configuration
+   flow of pandora.main), Proofs/IndicatorP.v (the run's rewriting of `indicator`), Proofs/JsonP.v
+   and Proofs/GuardP.v (representation invariant of update_conf, scalars only), Proofs/JsonTextP.v
+   (JSON text) and Proofs/SavedFileP.v (the saved file). *)
 From Coq Require Import ZArith QArith List Bool String.
-From Pandora Require Import Model.Json Model.Checker Model.Pipeline Model.Save Model.SavedCfg Spec.Save
+From Pandora Require Import Model.Json Model.JsonText Model.Checker Model.Pipeline Model.Save Model.SavedCfg
+  Model.SavedFile Spec.Save
   Proofs.CheckerP Proofs.SaveP Proofs.SavedCfgP Proofs.RewriteP Proofs.IndicatorP Proofs.JsonP Proofs.GuardP
-  Gen.SavePlan Gen.Schemas.
+  Proofs.JsonTextP Proofs.SavedFileP Gen.SavePlan Gen.Schemas.
 Import ListNotations.
 
 (* Per-run obligations on the data regenerated from /repo: the write_data_array calls of
@@ -224,6 +227,49 @@ Section Config.
   Qed.
 End Config.
 
+(* (c) JSON ROUND TRIP.  For every value of the JSON subset of Model/JsonText.v (null, booleans,
+   NaN / Infinity / -Infinity, every integer, every float that is a reduced fraction with a finite
+   decimal expansion of at most 20 fraction digits, strings of printable ASCII without the
+   double quote and the backslash, lists and dictionaries of such, any depth, any size):
+   the text json.dump writes parses back (json.load) to the same value, key order included. *)
+Theorem C19_json_roundtrip : forall v, printable v = true -> parse (print v) = Some v.
+Proof. exact parse_print. Qed.
+
+Section ConfigFile.
+  Variable orc : string -> jv -> option bool.
+  Variable grid_ok : jv -> jv -> bool.
+  Variable images_ok : dict -> bool.
+  Variable bands_of : jv -> list jv.
+
+  Notation check_conf := (full_check gen_defs orc grid_ok images_ok bands_of classes interpolation_methods).
+  Notation check_file := (check_file gen_defs orc grid_ok images_ok bands_of classes interpolation_methods).
+  Notation main_file := (main_file gen_defs orc grid_ok images_ok bands_of classes interpolation_methods).
+
+  (* THE SAVED FILE REPLAYS.  main_file m text = the text of cfg/config.json that pandora.main
+     writes when given a configuration file holding [text] (json.load, check_conf, the run's
+     rewriting of `indicator`, margins m added, json.dump).  Whenever it writes [out]: the input was
+     a JSON dictionary that check_conf accepts, [out] is the print of the completed configuration
+     as run plus the margins, and -- provided that dictionary is in the JSON subset (no string
+     needing an escape, floats with finite decimal expansions) -- [out] is loadable, check_conf
+     accepts what it loads and returns the same completed configuration, and main writes exactly
+     the same text again. *)
+  Theorem C19_saved_file_replays : forall m text out,
+    main_file m text = Some out ->
+    exists user cfg saved,
+      parse text = Some (JDict user)
+      /\ check_conf user = Some cfg
+      /\ saved = set_key "margins" m (run_rewrites cfg)
+      /\ out = print (JDict saved)
+      /\ (printable (JDict saved) = true ->
+          parse out = Some (JDict saved)
+          /\ check_file out = Some (run_rewrites cfg)
+          /\ main_file m out = Some out).
+  Proof.
+    exact (saved_file_replays gen_defs orc grid_ok images_ok bands_of classes interpolation_methods
+             C19_classes_wf C19_confidence_wf (proj1 C19_scalars_wf) (proj2 C19_scalars_wf)).
+  Qed.
+End ConfigFile.
+
 (* What the run writes into the configuration (the `indicator` of each cost_volume_confidence
    step := the suffix of its name) is idempotent: the configuration saved by a run is not
    rewritten again when it is replayed, whatever it contains. *)
@@ -261,6 +307,31 @@ Example C19_replay_example :
      end.
 Proof. vm_compute. repeat split. Qed.
 
+(* Non-vacuity of the file-level theorem: the witness as a JSON text with a suffixed confidence
+   step, floats, NaN; the saved text is in the subset and is saved again unchanged. *)
+Example C19_file_example :
+  let text := "{ ""input"": {""left"": {""img"": ""l.tif"", ""disp"": [-2, 2], ""nodata"": NaN}, ""right"": {""img"": ""r.tif""}},
+     ""pipeline"": {""matching_cost"": {""matching_cost_method"": ""zncc"", ""window_size"": 3},
+                  ""cost_volume_confidence.a1"": {""confidence_method"": ""ambiguity"", ""eta_max"": 0.5, ""indicator"": ""mine""},
+                  ""disparity"": {""disparity_method"": ""wta"", ""invalid_disparity"": ""NaN""},
+                  ""filter"": {""filter_method"": ""bilateral"", ""sigma_color"": 4.0}} }"%string in
+  match main_file gen_defs open_orc ok2 ok1 d8_bands classes interpolation_methods (JDict [("left", JInt 1)]%string) text with
+  | Some out =>
+    match parse out with
+    | Some (JDict saved) =>
+      printable (JDict saved) = true
+      /\ main_file gen_defs open_orc ok2 ok1 d8_bands classes interpolation_methods (JDict [("left", JInt 1)]%string) out = Some out
+      /\ (match lookup "pipeline" saved with
+          | Some (JDict p) => match lookup "cost_volume_confidence.a1" p with
+                              | Some (JDict c) => lookup "indicator" c
+                              | _ => None end
+          | _ => None end) = Some (JStr ".a1")
+    | _ => False
+    end
+  | None => False
+  end.
+Proof. vm_compute. repeat split. Qed.
+
 Print Assumptions C19_plan_wf.
 Print Assumptions C19_files_iff_products.
 Print Assumptions C19_casts_exact.
@@ -277,5 +348,7 @@ Print Assumptions C19_guard_holds.
 Print Assumptions C19_checked_cfg_fixpoint.
 Print Assumptions C19_cfg_as_run_fixpoint.
 Print Assumptions C19_saved_cfg_replays.
+Print Assumptions C19_json_roundtrip.
+Print Assumptions C19_saved_file_replays.
 Print Assumptions C19_before_fix_refuted.
 Print Assumptions C19_run_rewrites_idempotent.
